@@ -120,6 +120,52 @@ func c04Publication(c *Ctx, m *Module, pfx string) {
 	okNext := nextStore != nil && nextStore.Call.Args[1] == la[2]
 	r.Check(pfx+".reserve-write-link", "newCounter/each link attempt first points the record at the expected head", m.Pos(linkCAS.Pos()), okNext,
 		"in the same iteration as cas32(headOff, head, start), next.Store(head) must run first with the same head value (hoisting it out of the retry loop links the record in front of a stale chain)")
+	// the head the FIRST link attempt expects is the one lookup() walked the chain from
+	// (that walk is the evidence that the name is not in the chain behind it)
+	{
+		var initial []ssa.Value
+		if phi, ok := la[2].(*ssa.Phi); ok {
+			for i, e := range phi.Edges {
+				if !(phi.Block().Dominates(phi.Block().Preds[i]) || blockReaches(phi.Block(), phi.Block().Preds[i])) {
+					initial = append(initial, e)
+				}
+			}
+		} else {
+			initial = append(initial, la[2])
+		}
+		okInit := len(initial) > 0
+		detail := ""
+		var chk func(v ssa.Value, seen map[ssa.Value]bool) bool
+		chk = func(v ssa.Value, seen map[ssa.Value]bool) bool {
+			v = strip(v)
+			if seen[v] {
+				return true
+			}
+			seen[v] = true
+			if p2, ok := v.(*ssa.Phi); ok {
+				for _, e := range p2.Edges {
+					if !chk(e, seen) {
+						return false
+					}
+				}
+				return true
+			}
+			if e, ok := v.(*ssa.Extract); ok && e.Index == 2 {
+				if cl, ok := e.Tuple.(*ssa.Call); ok && calleeName(&cl.Call) == "(*internal/counter.mappedFile).lookup" {
+					return true
+				}
+			}
+			detail = describe(v)
+			return false
+		}
+		for _, v := range initial {
+			if !chk(v, map[ssa.Value]bool{}) {
+				okInit = false
+			}
+		}
+		r.Check(pfx+".reserve-write-link", "newCounter/first link attempt expects the head that lookup walked from", m.Pos(linkCAS.Pos()), okInit,
+			"head may only be refreshed inside the link loop, where the records in front of the old head are re-checked for the name; a head re-read elsewhere skips that check and links a duplicate: "+shortDesc(detail))
+	}
 	// the head retried is re-read from the bucket
 	if phi, ok := la[2].(*ssa.Phi); ok {
 		okReload := false
@@ -230,6 +276,7 @@ func c04Publication(c *Ctx, m *Module, pfx string) {
 
 	if pfx == "C04" {
 		c10ExtendTail(c, m, "C04.extend-tail")
+		c10PageTest(c, m, "C04.extend-tail")
 		c10Limit(c, m, "C04.single-writer-of-limit")
 		c04Growth(c, m, nc, walkEntry)
 	}
